@@ -23,8 +23,9 @@ from core import enc_bool, enc_opt, enc_str, enc_str_list
 PROPERTY = "C17"
 
 # CODE VARIANT FLAGS  (value = what today's /repo does; see Model/Syntax.lean)
-STRIPNL = 1      # 1: get_lexer_by_name(name) keeps Pygments' stripnl=True; 0: repaired (stripnl=False)
-SKIP_RAISES = 1  # 1: bare next(tokens) in tokens_to_spans -> RuntimeError past the end; 0: repaired (break)
+# (the environment overrides exist only to try a pending fix: VERIF_REPO=<worktree> VERIF_C17_STRIPNL=0 VERIF_C17_SKIP_RAISES=0)
+STRIPNL = int(os.environ.get("VERIF_C17_STRIPNL", "1"))          # 1: get_lexer_by_name(name) keeps Pygments' stripnl=True; 0: repaired (stripnl=False)
+SKIP_RAISES = int(os.environ.get("VERIF_C17_SKIP_RAISES", "1"))  # 1: bare next(tokens) in tokens_to_spans -> RuntimeError past the end; 0: repaired (break)
 
 GUIDE = "│"
 CTL = {8, 11, 12, 13}
@@ -338,7 +339,8 @@ def evaluate(ctx, c, res, toks):
             if a - 1 > have:
                 # the skip loop ran past the text: because the range starts beyond the source,
                 # or because stripnl removed leading/trailing blank lines the range counts on
-                finding = "syntax-range-start-beyond-end-raises" if a - 1 > len(P) else "syntax-stripnl-drops-blank-lines"
+                have_unstripped = pyg_pre(c.code.expandtabs(c.tab_size), False).count("\n")
+                finding = "syntax-range-start-beyond-end-raises" if a - 1 > have_unstripped else "syntax-stripnl-drops-blank-lines"
         ctx.check(False, site, c.as_dict(), "rendering raised %s: %s" % (res[1], res[2]), finding=finding)
         return
     rows = res[1]
@@ -574,8 +576,62 @@ def syntax_cases(ctx, rng):
         ctx.flush()
 
 
-# --------------------------------------------------------------------------------------------- tracebacks
+# --------------------------------------------------------------------------------------------- Syntax.from_path (glue)
 TB_ROOT = "/tmp/C17"
+
+
+def from_path_cases(ctx, rng):
+    """`Syntax.from_path` reads the file, picks a lexer from the extension and forwards every option."""
+    from rich.syntax import Syntax
+
+    root = os.path.join(TB_ROOT, "fp_%d_%d" % (os.getpid(), ctx.seed))
+    shutil.rmtree(root, ignore_errors=True)
+    os.makedirs(root)
+    try:
+        exts = [("python", ".py"), ("json", ".json"), ("html", ".html"), ("text", ".txt"), ("no-such-lexer", ".zzz-unknown"), ("python", "")]
+        for i in range(60 if ctx.quick else 600):
+            pool, ext = exts[i % len(exts)]
+            code = rand_source(rng, pool).replace("\r", "")  # universal newlines would rewrite them while reading
+            path = os.path.join(root, "f%d%s" % (i, ext))
+            with open(path, "w", encoding="utf-8", newline="") as f:
+                f.write(code)
+            c = rand_case(rng, code, pool)
+            try:
+                syn = Syntax.from_path(path, theme=c.theme, line_numbers=c.line_numbers, line_range=c.line_range, start_line=c.start_line,
+                                       highlight_lines=set(c.highlight), code_width=c.code_width, tab_size=c.tab_size,
+                                       word_wrap=c.word_wrap, background_color=c.bg, indent_guides=c.indent_guides)
+            except Exception as e:
+                ctx.check(False, "Syntax.from_path", {"path_ext": ext, "code": code}, "from_path raised %s: %s" % (type(e).__name__, e))
+                continue
+            got = dict(code=syn.code, line_numbers=syn.line_numbers, line_range=syn.line_range, start_line=syn.start_line,
+                       highlight=tuple(sorted(syn.highlight_lines)), code_width=syn.code_width, tab_size=syn.tab_size, word_wrap=syn.word_wrap,
+                       indent_guides=syn.indent_guides, bg=syn.background_color, dedent=syn.dedent)
+            want = dict(code=code, line_numbers=c.line_numbers, line_range=c.line_range, start_line=c.start_line, highlight=tuple(sorted(set(c.highlight))),
+                        code_width=c.code_width, tab_size=c.tab_size, word_wrap=c.word_wrap, indent_guides=c.indent_guides, bg=c.bg, dedent=False)
+            ctx.check(got == want, "Syntax.from_path", {"path_ext": ext, "case": c.as_dict()},
+                      "from_path does not forward the file content / options unchanged: %r" % {k: (got[k], want[k]) for k in got if got[k] != want[k]})
+            ctx.note("from_path:lexer=%s" % syn.lexer_name)
+            # render what from_path built, judge it against the FILE's lines
+            c.lexer = syn.lexer_name
+            c.code = syn.code
+            src = c.code.expandtabs(c.tab_size)
+            toks = tokens_for(c.lexer, src)
+            res = render_rows(syn, c)
+            if representable(c.code):
+                ctx.case("syn_render", [enc_str(c.code), enc_bool(toks is not None), enc_str_list(toks or []), SKIP_RAISES] + opts_fields(c), enc_result(res),
+                         shape="from_path", sample=repr(c))
+            c2 = Case(**{**c.as_dict(), "code": code})
+            evaluate(ctx, c2, res, toks)
+    finally:
+        shutil.rmtree(root, ignore_errors=True)
+        try:
+            os.rmdir(TB_ROOT)
+        except OSError:
+            pass
+    ctx.flush()
+
+
+# --------------------------------------------------------------------------------------------- tracebacks
 
 
 def gen_module(rng):
@@ -791,6 +847,7 @@ def run(ctx):
     helper_correspondence(ctx, rng)
     fit_correspondence(ctx, rng)
     syntax_cases(ctx, rng)
+    from_path_cases(ctx, rng)
     traceback_cases(ctx, rng)
     ctx.rule = (
         "helpers: every string <= 5/6 over small alphabets (expandtabs, preprocessing, split, remove_suffix, highlight x all ranges, "
@@ -827,7 +884,30 @@ def replay(ctx, case):
 
 
 MANIFEST = {
-    "text": "TODO",
-    "note": "TODO",
-    "design_ref": "DESIGN.md section 7, C17",
+    "text": "Lean 4 theorems (Props/C17.lean; no bound on source length, number of lines, widths, ranges or token streams) about an "
+    "executable model of Syntax.highlight / Syntax.__rich_console__ / Text.remove_suffix+split / with_indent_guides and of the options "
+    "Traceback._render_stack passes, for an ARBITRARY lexer meeting the contract `tokens concatenate to Pygments' preprocessing of the code`: "
+    "highlighting_keeps_characters (the highlighted text is the source, cut only after a whole line when a range is given); "
+    "range_selects_clipped / lines_are_source_lines / plain_lines_are_source_lines (rows are the tab-expanded source lines a..b clipped to the "
+    "lines that exist, numbered consecutively from start_line+max(0,a-1), up to <=2 empty lines missing at the very end); "
+    "numbers_are_line_numbers (row numbered N shows source line N-start_line, marked iff N in highlight_lines); gutter_wide_enough (every "
+    "number fits the column computed from the newline count; gutter has constant width, removing it leaves the code cell); "
+    "fitted_line_is_line (a line that fits is shown exactly + padding, a longer one is set_cell_size of it); guides_only_overdraw_indent; "
+    "traceback_marks_failing_line (exactly one marked row, numbered lineno, showing line lineno, for every extra_lines / leading blank lines / "
+    "file length / indent guides). Proved for the repaired variant (stripnl=False; StopIteration guarded); `old_*` witnesses (decide) show today's "
+    "variant violates them. Tie: every run renders ~20k real Syntax objects (5 lexers incl. unknown, every option axis, bounded-exhaustive "
+    "sources <=4 over {a,space,newline,tab,wide}) through a real Console and compares all rows character for character with the model fed the "
+    "real Pygments token stream; helper functions (expandtabs, Pygments preprocessing, Text.split/remove_suffix, Syntax.highlight for all ranges, "
+    "indent guides, slices, str(n), _numbers_column_width) compared exhaustively on small alphabets; Syntax.from_path; 120 generated raising "
+    "modules rendered through Traceback and checked against linecache; plus direct evaluation of the statement on rich's own output.",
+    "note": "PARTIAL where stated: (1) the Pygments lexer is a parameter — the contract is checked per case, not proved; (2) theorems assume a "
+    "clean source (no BS/VT/FF/CR, no BOM), range end >= 0, tab_size >= 1 with indent guides, start_line >= 0, dedent off; (3) word-wrapped "
+    "lines that do not fit (C02's subject), code_width < 1, cropping through zero-width characters and BS/VT/FF behind a lexer answer "
+    "`unmodelled` (direct evaluation still checks non-blank character preservation for folded lines); (4) styles/themes are outside the model "
+    "(they cannot change characters; all Pygments themes are rendered in the thorough tier); (5) trailing EMPTY lines of the source or of a "
+    "range may be missing (<=2; <=3 more with indent guides) and an empty selection with indent guides shows one blank row — both are modelled "
+    "quirks allowed by the statement's 'blank lines at the very end aside'. Trusted: Lean kernel; propext/Classical.choice/Quot.sound; the "
+    "harness; C13's cell-width model. Two genuine defects found (see pending_fixes/C17-*.diff): stripnl=True drops leading blank lines "
+    "(numbers shift, tracebacks mark nothing or the wrong line); a line_range starting more than one line past the end raises RuntimeError.",
+    "design_ref": "DESIGN.md section 7 (C17) and section 8 (F13)",
 }
